@@ -277,6 +277,27 @@ func (e *exec) summary() string {
 	return strings.Join(parts, " ")
 }
 
+// pattern abstracts an execution to its observable outcome: the rank of every
+// returned id, the real-time shape of the calls and which fences were accepted.
+func (e *exec) pattern() string {
+	ids := make([]uint64, 0, len(e.calls))
+	for _, c := range e.calls {
+		if c.kind == 'N' {
+			ids = append(ids, c.id)
+		}
+	}
+	sort.Slice(ids, func(i, j int) bool { return ids[i] < ids[j] })
+	var b strings.Builder
+	for _, c := range e.calls {
+		if c.kind == 'N' {
+			fmt.Fprintf(&b, "t%d.N%d[%d,%d];", c.task, sort.Search(len(ids), func(i int) bool { return ids[i] >= c.id }), c.start, c.end)
+		} else {
+			fmt.Fprintf(&b, "t%d.F%v[%d,%d];", c.task, c.err == nil, c.start, c.end)
+		}
+	}
+	return b.String()
+}
+
 func (e *exec) noteProbes() {
 	if e.fenceRace {
 		e.r.Probe("setfloor.while_two_ids_drawn_unpublished")
@@ -313,8 +334,11 @@ var exhaustivePrograms = [][][]opSpec{
 	// three parties: two allocators can sit between drawing and publishing their
 	// ids while the fence is being set
 	{{{kind: 'N'}}, {{kind: 'N'}}, {{kind: 'F'}}},
-	{{{kind: 'N'}}, {{kind: 'N'}}, {{kind: 'F'}, {kind: 'N'}}},
 }
+
+// shapeWeights favours the 2 x 2 program (whose 8 chunks the registration
+// expects to be covered in every quick check) and the three-party fence race.
+var shapeWeights = []int{3, 1, 1, 1, 1, 1, 2}
 
 func cloneProgs(in [][]opSpec, fkind, delta int) [][]opSpec {
 	out := make([][]opSpec, len(in))
@@ -350,7 +374,7 @@ func runC30(t *testing.T, r *simkit.Run) {
 // completion of the schedule by depth-first search (stateless re-execution).
 func runExhaustive(r *simkit.Run, cur **exec) {
 	tp := r.Tape
-	shape := tp.Intn(len(exhaustivePrograms))
+	shape := tp.Weighted(shapeWeights)
 	fkind := []int{1, 2, 5, 3, 6}[tp.Intn(5)]
 	delta := tp.Intn(5) - 1 // -1..3
 	// clock: 0 frozen, 1 = 300us after every decision, 2 = 1ms after every decision
@@ -431,7 +455,7 @@ func runExhaustive(r *simkit.Run, cur **exec) {
 			r.Fail(class, detail+" ["+e.summary()+"]", map[string]any{"path": string(path)})
 			return
 		}
-		r.State("x", shape, fkind, string(path))
+		r.State("x", shape, fkind, e.pattern())
 		// backtrack to the deepest decision with an untried alternative
 		for len(stack) > 0 && stack[len(stack)-1].chosen+1 >= stack[len(stack)-1].n {
 			stack = stack[:len(stack)-1]
